@@ -665,9 +665,10 @@ pub fn evaluate_single(cfg: &RunCfg, rec: &RunRecord) -> (Vec<Finding>, Facts) {
     }
 
     // ---------------------------------------------------------------- C04 (and C06/C11 via the same model): linearizability
-    let lin_ok_domain = !has_panic && !has_composite && !cfg.lying_hint();
+    // (nested: pulls on the base are not calls on the iterator under test)
+    let lin_ok_domain = !has_panic && !has_composite && !cfg.lying_hint() && !kind.is_nested();
     if lin_ok_domain {
-        let sized = kind.known_size() || cfg.hint == crate::elems::Hint::Exact;
+        let sized = cfg.sized();
         let m = Model { len, sized };
         let mut ops: Vec<LinOp> = Vec::new();
         let mut representable = true;
@@ -1036,7 +1037,7 @@ fn eval_queries(
     let calls = &rec.calls;
     let len = cfg.len;
     let kind = cfg.kind;
-    let sized = kind.known_size() || cfg.hint == crate::elems::Hint::Exact;
+    let sized = cfg.sized();
     let val = |c: &Call| -> Option<Option<usize>> {
         match &c.res {
             Res::Len(l) => Some(*l),
@@ -1058,7 +1059,10 @@ fn eval_queries(
             return;
         }
         let overlapping = calls.iter().any(|c| {
-            (c.kind.is_pull() || c.kind.is_composite() || c.kind == CallKind::Skip)
+            (c.kind.is_pull()
+                || c.kind.is_composite()
+                || c.kind == CallKind::Skip
+                || c.kind == CallKind::BasePull)
                 && c.invoke < q.ret
                 && c.ret > q.invoke
         });
@@ -1083,6 +1087,14 @@ fn eval_queries(
             let remaining = if skipped { 0 } else { len.saturating_sub(delivered) };
             let mut bad: Option<String> = None;
             match v {
+                Some(x) if kind.is_nested() => {
+                    // the outer iterator may know the length or not; what it says must be true
+                    if x != remaining {
+                        bad = Some(format!(
+                            "answered {x} with no pull in flight, but {delivered} of the {len} elements had been delivered (through the outer iterator or directly from its base), so {remaining} remain"
+                        ));
+                    }
+                }
                 Some(x) => {
                     if sized {
                         if x != remaining {
@@ -1378,7 +1390,7 @@ fn evaluate_c16_inner(cfg: &RunCfg, rec: &RunRecord) -> (Vec<Finding>, Facts) {
             call: ci,
         });
     }
-    let sized = cfg.kind.known_size() || cfg.hint == crate::elems::Hint::Exact;
+    let sized = cfg.sized();
     let m = Model { len: cfg.len, sized };
     if ops.len() <= 60 {
         let r = lin::check(&m, &ops);
